@@ -88,12 +88,11 @@ impl Case for C05Case {
                 continue; // the property quantifies over queries with a letter or digit
             }
             let tq = tokenize_query(q, &l);
-            if tq.words.is_empty() {
-                continue;
-            }
+            // (a query with a letter or digit whose tokenisation has no word is not excused: its
+            // gram set is empty, so every hit it returns fails the shared-gram clause)
             let qg: BTreeSet<[char; 3]> = gramset(&tq);
             let qalnum: BTreeSet<char> = tq.chars.iter().cloned().filter(|c| c.is_alphanumeric()).collect();
-            let stretch = tq.words.last().unwrap().slice.1 - tq.words[0].slice.0;
+            let stretch = if tq.words.is_empty() { 0 } else { tq.words.last().unwrap().slice.1 - tq.words[0].slice.0 };
             let hits = search(&store, q);
             ctx.label_if(hits.is_empty(), "query-without-hits");
             ctx.label_if(w.recs.len() > 10 * w.limit && w.limit > 0, "store>10x-limit");
@@ -245,5 +244,6 @@ pub fn def() -> PropDef {
             Space { name: "prefix", decode: decode_prefix, plan: |t| Plan::Random(t.n(90_000, 1_500_000)) },
         ],
         differential: false,
+        floors: &[("hits", 0.5), ("prefix_probes", 0.5)],
     }
 }
